@@ -493,10 +493,15 @@ fn c16_real_server_spot(ctx: &mut Ctx) -> Vec<Violation> {
         }
         std::thread::sleep(Duration::from_millis(100));
         let out = s.output();
-        let want = [format!("Number of workers          : {}", workers), format!("Max response batch size    : {}", bs), format!("Server listening on        : 127.0.0.1:{}", s.port), if *fault > 0 { format!("Deliberate response errors : ~{}%", fault) } else { "Deliberate response errors : disabled".into() }];
-        for w in want {
-            if !out.contains(&w) {
-                return ctx.fail("startup-log-differs-from-written", format!("expected log line {:?}; output: {}", w, out));
+        // start-up log lines that state a setting must state the written value (lines are located by their label; if a
+        // label is absent the log format differs from the one this spot check knows and nothing is concluded)
+        let labelled = |label: &str| -> Option<String> { out.lines().find(|l| l.contains(label)).map(|l| l.rsplit(": ").next().unwrap_or("").trim().to_string()) };
+        let checks: Vec<(&str, String)> = vec![("Number of workers", workers.to_string()), ("Max response batch size", bs.to_string()), ("Server listening on", format!("127.0.0.1:{}", s.port)), ("Deliberate response errors", if *fault > 0 { format!("~{}%", fault) } else { "disabled".into() })];
+        for (label, want) in checks {
+            match labelled(label) {
+                Some(v) if v == want => {}
+                Some(v) => return ctx.fail("startup-log-differs-from-written", format!("log line {:?} states {:?}, written value {:?}", label, v, want)),
+                None => ctx.note(format!("start-up log has no {:?} line; spot check skipped for it", label)),
             }
         }
         ctx.nontrivial(&("real-spot", bs, fault, workers, via_env));
@@ -694,7 +699,7 @@ fn check_config(ctx: &mut Ctx, c: &ConfigCase) -> Res {
             st.set_read_timeout(Some(Duration::from_secs(3))).unwrap();
             let mut got = Vec::new();
             let _ = st.read_to_end(&mut got);
-            if got != WANT.as_bytes() {
+            if !health_ok(&got) {
                 return ctx.fail(
                     if got.is_empty() { "health-no-response|burst" } else { "health-response-differs" },
                     format!("{}: connection #{} of a burst of {} simultaneous health connections read {:?} within 3 s", tag, j, 2 * n + 1, String::from_utf8_lossy(&got)),
@@ -713,8 +718,11 @@ fn check_config(ctx: &mut Ctx, c: &ConfigCase) -> Res {
             if r.is_err() && got.is_empty() {
                 return ctx.fail("health-no-response|after-aborted-connections", format!("{}: health connection #{} (sequential, after {} connections that were reset or closed unread and a burst) got no response within 3 s", tag, j, 2 * n));
             }
-            if got != WANT.as_bytes() {
+            if !health_ok(&got) {
                 return ctx.fail("health-response-differs", format!("{}: health connection #{} read {:?}", tag, j, String::from_utf8_lossy(&got)));
+            }
+            if got != WANT.as_bytes() {
+                ctx.class("c15:health-response-not-byte-identical-to-the-current-text");
             }
             k += 1;
             let req = fresh_request(Proto::Classic, b"c15h", k);
@@ -765,6 +773,33 @@ fn check_config(ctx: &mut Ctx, c: &ConfigCase) -> Res {
         ctx.nontrivial(c);
     }
     Ok(())
+}
+
+/// "the fixed HTTP 200 response": an HTTP/1.x 200 status line, header lines only, no body, then EOF
+fn health_ok(got: &[u8]) -> bool {
+    let t = String::from_utf8_lossy(got);
+    let mut lines = t.split('\n');
+    let status = lines.next().unwrap_or("").trim_end_matches('\r');
+    if !(status.starts_with("HTTP/1.1 200") || status.starts_with("HTTP/1.0 200")) {
+        return false;
+    }
+    // headers until an empty line, nothing but whitespace after it
+    let mut saw_end = false;
+    for l in lines {
+        let l = l.trim_end_matches('\r');
+        if saw_end {
+            if !l.trim().is_empty() {
+                return false;
+            }
+        } else if l.is_empty() {
+            saw_end = true;
+        } else if !l.contains(':') {
+            return false;
+        } else if l.to_ascii_lowercase().starts_with("content-length") && l.split(':').nth(1).map(|v| v.trim() != "0").unwrap_or(true) {
+            return false;
+        }
+    }
+    saw_end
 }
 
 fn truncate(s: &str, n: usize) -> String {
@@ -1140,6 +1175,7 @@ fn check_signal(ctx: &mut Ctx, p: &SignalPlan) -> Res {
     let replies = Arc::new(AtomicU64::new(0));
     let t0 = Instant::now();
     let mut handles = vec![];
+    let mut flood_saturated = false;
     match &p.load {
         Load::Idle => {}
         Load::Closed(k) | Load::ThenIdle(k) => {
@@ -1189,44 +1225,49 @@ fn check_signal(ctx: &mut Ctx, p: &SignalPlan) -> Res {
             }
         }
         Load::Flood(k, kind) => {
-            for c in 0..(*k).max(1) {
+            let kind = *kind;
+            // one open-loop sender per call; the first one also gets a reader thread that verifies replies
+            let spawn_flooder = |c: u8, with_reader: bool| {
                 let (stop, bad, replies, pk) = (stop.clone(), bad_reply.clone(), replies.clone(), pk.clone());
-                let kind = *kind;
-                handles.push(std::thread::spawn(move || {
+                std::thread::spawn(move || {
                     let sock = UdpSocket::bind("127.0.0.1:0").unwrap();
                     sock.set_nonblocking(true).unwrap();
                     crate::srvlab::set_rcvbuf_pub(&sock, 8 << 20);
                     let valid = fresh_request(Proto::Classic, b"c19f", c as u64);
                     let invalid = vec![0x55u8; 1024];
                     let mut n = 0u64;
-                    // open loop; a reader thread on the same socket verifies every reply it can get hold of
-                    // (replies beyond its rate are dropped by the kernel at our socket)
-                    let rsock = sock.try_clone().unwrap();
-                    let (rstop, rbad, rreplies, rpk, rvalid) = (stop.clone(), bad.clone(), replies.clone(), pk.clone(), valid.clone());
-                    let reader = std::thread::spawn(move || {
-                        let mut fv = FastVerifier::new(&rpk);
-                        let mut buf = [0u8; 4096];
-                        let mut idle = 0;
-                        // keep reading for a short while after the flood stops: the last replies matter most
-                        while idle < 200 {
-                            match rsock.recv_from(&mut buf) {
-                                Ok((len, _)) => {
-                                    idle = 0;
-                                    rreplies.fetch_add(1, Ordering::Relaxed);
-                                    if let Err(e) = fv.verify(Proto::Classic, &rvalid, &buf[..len]) {
-                                        *rbad.lock().unwrap() = Some(format!("{} ({} bytes, under flood)", e, len));
-                                        break;
+                    // a reader thread on the same socket verifies every reply it can get hold of (replies beyond its rate
+                    // are dropped by the kernel at our socket)
+                    let reader = if with_reader {
+                        let rsock = sock.try_clone().unwrap();
+                        let (rstop, rbad, rreplies, rpk, rvalid) = (stop.clone(), bad.clone(), replies.clone(), pk.clone(), valid.clone());
+                        Some(std::thread::spawn(move || {
+                            let mut fv = FastVerifier::new(&rpk);
+                            let mut buf = [0u8; 4096];
+                            let mut idle = 0;
+                            // keep reading for a short while after the flood stops: the last replies matter most
+                            while idle < 200 {
+                                match rsock.recv_from(&mut buf) {
+                                    Ok((len, _)) => {
+                                        idle = 0;
+                                        rreplies.fetch_add(1, Ordering::Relaxed);
+                                        if let Err(e) = fv.verify(Proto::Classic, &rvalid, &buf[..len]) {
+                                            *rbad.lock().unwrap() = Some(format!("{} ({} bytes, under flood)", e, len));
+                                            break;
+                                        }
                                     }
-                                }
-                                Err(_) => {
-                                    if rstop.load(Ordering::Relaxed) {
-                                        idle += 1;
+                                    Err(_) => {
+                                        if rstop.load(Ordering::Relaxed) {
+                                            idle += 1;
+                                        }
+                                        std::thread::sleep(Duration::from_micros(500));
                                     }
-                                    std::thread::sleep(Duration::from_micros(500));
                                 }
                             }
-                        }
-                    });
+                        }))
+                    } else {
+                        None
+                    };
                     while !stop.load(Ordering::Relaxed) {
                         n += 1;
                         let d = match kind % 3 {
@@ -1236,9 +1277,32 @@ fn check_signal(ctx: &mut Ctx, p: &SignalPlan) -> Res {
                         };
                         let _ = sock.send_to(d, addr);
                     }
-                    let _ = reader.join();
-                }));
+                    if let Some(r) = reader {
+                        let _ = r.join();
+                    }
+                })
+            };
+            let k = (*k).max(1);
+            for c in 0..k {
+                handles.push(spawn_flooder(c, c == 0));
             }
+            // make it a flood in fact: wait until the server's receive queue has been non-empty for 5 consecutive samples,
+            // adding senders (up to 16) while it keeps draining
+            let t_sat = Instant::now();
+            let (mut streak, mut extra) = (0u32, 0u8);
+            while t_sat.elapsed() < Duration::from_millis(1500) && streak < 5 {
+                std::thread::sleep(Duration::from_millis(20));
+                if udp_rx_queue_for_port(s.port) > 0 {
+                    streak += 1;
+                } else {
+                    streak = 0;
+                    if t_sat.elapsed() > Duration::from_millis(250 * (extra as u64 + 1)) && k + extra < 16 {
+                        handles.push(spawn_flooder(k + extra, false));
+                        extra += 1;
+                    }
+                }
+            }
+            flood_saturated = streak >= 5;
         }
     }
     if let Load::ThenIdle(_) = p.load {
@@ -1304,7 +1368,7 @@ fn check_signal(ctx: &mut Ctx, p: &SignalPlan) -> Res {
     let last = last_reply_ns.load(Ordering::Relaxed);
     let in_flight = p.load != Load::Idle && ((matches!(p.load, Load::Flood(..)) && rxq > 0) || (last > 0 && sig_at.saturating_sub(last) < 5_000_000) || last > sig_at);
     if matches!(p.load, Load::Flood(..)) {
-        ctx.class(&format!("c19:flood:queue-at-signal={}", if rxq == 0 { "empty" } else if rxq < 100_000 { "<100KB" } else { ">=100KB" }));
+        ctx.class(&format!("c19:flood:queue-at-signal={}:{}", if rxq == 0 { "empty" } else if rxq < 100_000 { "<100KB" } else { ">=100KB" }, if flood_saturated { "sustained-backlog" } else { "no-sustained-backlog" }));
     }
     ctx.class(&format!("c19:{}:{}:workers={}:stats={}:{}", load_class, sigs, p.workers, p.stats, if reaction < Duration::from_millis(200) { "exit<200ms" } else if reaction < Duration::from_millis(1500) { "exit<1.5s" } else { "exit<5s" }));
     let long_idle = matches!(p.load, Load::Idle | Load::ThenIdle(_)) && p.delay_ms >= 2_000;
